@@ -678,6 +678,20 @@ func init() {
 				p.Profile = "per-target-order+faults"
 				g.deviceFaults(p, []string{"conn-down", "crash", "dev-restart"}, 2)
 			}
+			if g.chance(1, 4) {
+				// (wave 6) an interruption right after a write of the Configuration record - the merge of a change has landed,
+				// the proposal's COMMITTED status has not - or at a random store write: the retry must neither merge again on
+				// top of a successor nor skip
+				p.Profile += "+store-faults"
+				for i := 0; i <= g.pick(2); i++ {
+					k := []string{"crash", "op-unavail", "op-acklost"}[g.pick(3)]
+					if g.chance(2, 3) {
+						p.Faults = append(p.Faults, Fault{Kind: k, On: "after-write", Target: "configurations/update", N: 1 + g.pick(12), Burst: g.pick(2)})
+					} else if k != "crash" {
+						p.Faults = append(p.Faults, Fault{Kind: k, On: "write", N: 5 + g.pick(150)})
+					}
+				}
+			}
 			return p
 		},
 		Arm: func(s *Sys) { s.Mon = append(s.Mon, &c02{s: s}, &overlapProbe{s: s}) },
